@@ -548,7 +548,7 @@ def nontrivial_key(tr):
     return (tr['templates'][0],) + tuple(cls(s) for s in tr['steps'])
 
 
-def run_programs(out, progs, enforce, label, focus=None):
+def run_programs(out, progs, enforce, label, focus=None, prop='*'):
     """Execute programs on the library and validate the traces."""
     args = [(i + 1, p, focus) for i, p in enumerate(progs)]
     res = run_cases(execute, args, timeout=60, per_child=50, chunksize=10)
@@ -570,7 +570,8 @@ def run_programs(out, progs, enforce, label, focus=None):
                                  'res': s['res']} for s in t['steps']]})
     env = {'PNC_E_WF': '1' if 'wf' in enforce else '0',
            'PNC_E_ISO': '1' if 'iso' in enforce else '0',
-           'PNC_E_VAL': '1' if 'val' in enforce else '0'}
+           'PNC_E_VAL': '1' if 'val' in enforce else '0',
+           'PNC_E_PROP': prop}
     verdicts = validate_traces('PncCore_Trace', traces, out, shard=250,
                                env=env, label=label, timeout=1500)
     settle(out, traces, verdicts, None)
